@@ -22,7 +22,8 @@ RULE = ("A case: protocol 4 or 5, 1-2 fake nodes that compute statement ids like
         "USE ks2 afterwards, the statement executed as a bound statement or inside a batch, optionally dropped from the "
         "cluster's statement cache; the first EXECUTE/BATCH is answered UNPREPARED, the re-PREPARE with one of: the id the "
         "server computes, a forced equal / different id, 5 errors, connection close, a void or rows result; the re-sent "
-        "request with rows, UNPREPARED again or an error; connections have 3 stream ids and 0-2 warm-up requests, so "
+        "request with rows (sent WITHOUT column metadata when the driver built the EXECUTE with skip_meta; the statement has one "
+        "bind marker and two result columns), UNPREPARED again or an error; connections have 3 stream ids and 0-2 warm-up requests, so "
         "every frame of the exchange travels on every stream id (0 included).  Oracle: after UNPREPARED exactly one PREPARE with the same text "
         "(and the statement's keyspace iff protocol 5) goes to the same node; equal id => the request is re-sent there and "
         "its answer is the outcome; different id / error / unexpected result => the request fails and NO further frame is "
@@ -31,9 +32,13 @@ ASSUMPTIONS = ["network, clock, executor and event loop are simulated (sim/); Cl
                "ResponseFuture are the real classes",
                "statement ids are a function of (keyspace carried by PREPARE or else the connection's keyspace, query text), "
                "as in Cassandra",
-               "after a connection loss during the re-prepare only completion is required (moving to another host is allowed)"]
+               "after a connection loss during the re-prepare only completion is required (moving to another host is allowed)",
+               "the fake node leaves the column metadata out of a ROWS result when the driver built the EXECUTE with skip_meta "
+               "(the request a correct encoder would put on the wire)"]
 
-QUERY = "SELECT k FROM t WHERE k=0"
+QUERY = "SELECT k, v FROM t WHERE k=?"
+BIND_COLS = [("k", "int")]                 # one bind marker ...
+RESULT_COLS = U.ROW_COLS                   # ... two result columns: bind metadata != result metadata
 PREP_ERRORS = {"invalid": "InvalidRequest", "syntax": "SyntaxException", "unauthorized": "Unauthorized",
                "overloaded": "OverloadedErrorMessage", "server_error": "ServerError"}
 PREP_MODES = ["compute", "force_same", "force_diff", "void", "rows", "close"] + ["err:" + k for k in sorted(PREP_ERRORS)]
@@ -80,7 +85,7 @@ def _run(case, ctx, sim):
             eff = req.get("keyspace") or conn.srv_keyspace
             computed = qid_for(eff, QUERY)
             if not armed["on"]:
-                return ("reply", "RESULT", wire.result_prepared(req["version"], computed, [], [], ()))
+                return ("reply", "RESULT", wire.result_prepared(req["version"], computed, BIND_COLS, RESULT_COLS, (0,)))
             frames.append((index[node.address], "PREPARE", {"keyspace": req.get("keyspace"), "query": req["query"],
                                                               "stream": req["stream"]}))
             k = pos["p"]
@@ -100,7 +105,7 @@ def _run(case, ctx, sim):
                 return ("close",)
             else:
                 return ("error", m[4:] if m[4:] != "server_error" else "server", {})
-            return ("reply", "RESULT", wire.result_prepared(req["version"], qid, [], [], ()))
+            return ("reply", "RESULT", wire.result_prepared(req["version"], qid, BIND_COLS, RESULT_COLS, (0,)))
         if armed["on"] and ((op == "EXECUTE" and req.get("id") == orig.get("qid")) or op == "BATCH"):
             frames.append((index[node.address], op, {"stream": req["stream"]}))
             k = pos["e"]
@@ -109,9 +114,25 @@ def _run(case, ctx, sim):
             if a == "unprepared":
                 return ("error", "unprepared", {"id": orig["qid"]})
             if a == "rows":
-                return ("reply", "RESULT", wire.result_rows(U.ROW_COLS, [[1, "x"]], version=req["version"]))
+                return rows_reply(req)
             return ("error", a, {})
+        if armed.get("follow") and op == "EXECUTE" and req.get("id") == orig.get("qid"):
+            return rows_reply(req)
         return None
+
+    cur = {}
+
+    def rows_reply(req):
+        # An EXECUTE built with skip_meta asks the node to leave the column metadata out of the ROWS result;
+        # the rows are then decoded with the statement's own result metadata.  (protocol.py does not write the
+        # flag -- the node honours the request the driver built, which is what a fixed encoder would send.)
+        msg = getattr(cur.get("fut"), "message", None)
+        skip = req["op"] == "EXECUTE" and (req.get("skip_meta") or bool(getattr(msg, "skip_meta", False)))
+        if skip:
+            skipped["n"] += 1
+        return ("reply", "RESULT", wire.result_rows(RESULT_COLS, [[1, "x"]], version=req["version"], no_metadata=skip))
+
+    skipped = {"n": 0}
 
     orig = {}
     warm = case.get("warm")
@@ -143,9 +164,9 @@ def _run(case, ctx, sim):
     eff1 = prep_ks if prep_ks is not None else (use_after or conn_ks)
     if case["stmt"] == "batch":
         stmt = BatchStatement()
-        stmt.add(ps.bind(()))
+        stmt.add(ps.bind((0,)))
     else:
-        stmt = ps.bind(())
+        stmt = ps.bind((0,))
     if case["evicted"]:
         cluster._prepared_statements.pop(ps.query_id, None)
 
@@ -189,6 +210,7 @@ def _run(case, ctx, sim):
     if ctx._failures:
         return
     stream = {}
+    session.add_request_init_listener(lambda f: cur.__setitem__("fut", f))
     armed["on"] = True
     fut = None
     with ctx.driver(["C19.execute_async"]):
@@ -271,6 +293,31 @@ def _run(case, ctx, sim):
                 ctx.fail(["C19.outcome", "internal-error", F.exc_name(val), "prepare=%s" % last_mode] + feats,
                          "the request failed with an internal error instead of a driver/server error: %r" % (val,))
             ctx.label("outcome:%s" % (outcome[1] or outcome[0]))
+            if outcome[0] == "result" and kind == "result" and case["stmt"] == "bound" and pi >= 1:
+                # transparent: the statement object is as usable as before -- its result metadata still
+                # describes the result columns, and the next execution decodes its rows
+                names = [c[2] if isinstance(c, (tuple, list)) else getattr(c, "name", None) for c in (ps.result_metadata or [])]
+                if names != [c[0] for c in RESULT_COLS]:
+                    ctx.fail(["C19.statement", "result-metadata"] + feats,
+                             "after the re-prepare the statement's result metadata names %r, the node's PREPARED response "
+                             "says %r" % (names, [c[0] for c in RESULT_COLS]))
+                armed["on"] = False
+                armed["follow"] = True
+                res2 = []
+
+                def again():
+                    try:
+                        res2.append(("result", [tuple(r) for r in session.execute(ps.bind((0,)))]))
+                    except Exception as e:  # noqa
+                        res2.append(("error", e))
+                sim.call(again)
+                if res2[0] != ("result", [(1, "x")]):
+                    ctx.fail(["C19.statement", "next-execution", "got=%s" % (
+                        "rows" if res2[0][0] == "result" else F.exc_name(res2[0][1]))] + feats,
+                        "the execution after the transparent re-prepare returned %r, the node sent [(1, 'x')]" % (res2[0][1],))
+                ctx.label("follow-up-execution")
+    if skipped["n"]:
+        ctx.label("rows-without-metadata")
     for (_i, op, d) in frames:
         if d.get("stream") == 0:
             ctx.label("stream0:%s" % op)
